@@ -480,7 +480,9 @@ class RaftNode(Entity):
                 "term": self._current_term,
                 "success": True,
                 "from": self.name,
-                "match_index": self._log.last_index,
+                # Only the prefix checked against this request is known to
+                # match the leader's log; a stale suffix beyond it is not.
+                "match_index": prev_log_index + len(entries),
             },
             daemon=True,
         )
